@@ -230,7 +230,7 @@ func vfC11Judge(orig *RPC, frags []*RPC, limit int, report func(fp, msg string))
 			wantMsgs = append(wantMsgs, e.key)
 		}
 	}
-	got := map[string]int{}    // in fragments within the limit
+	got := map[string]int{}     // in fragments within the limit
 	gotOver := map[string]int{} // in oversized fragments (to be dropped by the caller)
 	var gotMsgs []string
 	for i, f := range frags {
